@@ -17,7 +17,7 @@ RULE = (
     "0.5 s, 1..2 events) and scripts of client_subscribed / client_unsubscribed for 3 endpoints (IPv4 and IPv6; also "
     "subscriptions naming 0 or 2 endpoints or an unknown eventgroup, repeated subscribes and unsubscribes of endpoints that "
     "are not subscribed), value updates, notify_once for any subset of events, and waits across cyclic rounds; steps at "
-    "distinct instants or inside one iteration. Every datagram is decoded independently. non-trivial = >= 2 endpoints with "
+    "distinct instants, inside one iteration, or a few loop iterations after the previous step without an idle point (while a round is suspended in its address look-ups). Every datagram is decoded independently. non-trivial = >= 2 endpoints with "
     "different subscription intervals and a notification round between, or a refused subscription, or a cyclic round with "
     "a changed value; distinct = distinct case JSON"
 )
@@ -30,7 +30,8 @@ BUDGET = {"quick": {"examples": 8000, "shrink": 300}, "thorough": {"examples": 4
 INTERVAL = 0.5
 SID, MAJOR = 0xB0A7, 4
 
-when_st = st.one_of(st.tuples(st.just("d"), st.sampled_from([0.001, 0.01, 0.1, 0.3, 0.5, 0.6, 1.2])).map(list), st.just(["s"]))
+when_st = st.one_of(st.tuples(st.just("d"), st.sampled_from([0.001, 0.01, 0.1, 0.3, 0.5, 0.6, 1.2])).map(list), st.just(["s"]),
+                    st.tuples(st.just("i"), st.integers(1, 3)).map(list))
 
 
 @st.composite
@@ -63,6 +64,8 @@ def fixed_cases(tier):
         {"n1": 2, "n2": 1, "steps": [S(0, 1, d), U(1, 1, d), N(3, d), U(1, 2, d), N(3, d), S(0, 1, d), N(1, d)]},   # unsubscribe of a non-member, repeated subscribe
         {"n1": 1, "n2": 1, "steps": [S(0, 2, d), U(1, 2, d), {"op": "wait", "when": ["d", 1.2]}, U(0, 2, d), S(1, 2, ["d", 0.2]), {"op": "wait", "when": ["d", 1.2]}]},
         {"n1": 2, "n2": 1, "steps": [{"op": "badsub", "kind": k, "ep": 0, "when": d} for k in ("none", "two", "unknown-eg")] + [N(3, d), S(0, 1, d), N(3, d)]},
+        # membership changes while a round is suspended in its address look-ups
+        *[{"n1": 2, "n2": 1, "steps": [S(0, 1, d), S(1, 1, d), S(2, 1, d), N(3, d), (U if k % 2 else S)(k % 3, 1, ["i", 1 + k // 2]), N(3, d), N(3, d)]} for k in range(6)],
     ]
 
 
@@ -143,7 +146,9 @@ def run_case(case):
             elif op == "set":
                 g = s["eg"] if s["eg"] in (1, 2) else 1
                 ev = events[g][s["ev"] % len(events[g])]
+                group_changes.setdefault("history", {}).setdefault(ev, [values[ev]])
                 values[ev] = bytes.fromhex(s.get("val", ""))
+                group_changes["history"][ev].append(values[ev])
                 groups[g].values[ev] = values[ev]
                 group_changes["values"].add(ev)
             elif op == "notify":
@@ -154,20 +159,20 @@ def run_case(case):
         def after_group(i0, i1):
             # explicit rounds: membership / values may have changed later within the same iteration
             for members, evs, vals in group_changes.get("rounds", []):
-                for ep in set(members) | subs[1]:
+                for ep in set(members) | subs[1] | {e_ for (g_, e_) in group_changes["members"] if g_ == 1}:
                     stable_member = ep in members and ep in subs[1] and (1, ep) not in group_changes["members"]
                     for ev in evs:
                         stable_val = ev not in group_changes["values"]
                         if stable_member and stable_val:
                             expect("must", ep, ev, values[ev])
                         else:
-                            expect("may", ep, ev, vals[ev])
-                            expect("may", ep, ev, values[ev])
+                            for v_ in set(group_changes.get("history", {}).get(ev, [])) | {vals[ev], values[ev]}:
+                                expect("may", ep, ev, v_)
             # initial notifications: the value at issue time, or - if it was changed later in the same iteration - the new one
             for ep, ev, val in group_changes.get("initial", []):
                 if ev in group_changes["values"]:
-                    expect("may", ep, ev, val)
-                    expect("may", ep, ev, values[ev])
+                    for v_ in set(group_changes.get("history", {}).get(ev, [])) | {val, values[ev]}:
+                        expect("may", ep, ev, v_)
                 else:
                     expect("must", ep, ev, val)
             new = tr.sent[seen[0]:]
